@@ -15,7 +15,8 @@ def nontrivial(case, impl, model, oracle):
 CHECK, MANIFEST = srvgen.make_check(
     "C07", "Props/C07.v",
     ["c07_dispatch", "c07_query_table", "c07_longest_suffix", "c07_error_responses_empty", "c07_data_only_from_loaded_zone",
-     "c07_catalog_tree_link", "c07_catalog_refinement_link", "c07_single_zone_link", "c07_srv_entry_fields", "c07_tree_of_entries_ok", "c07_query_table_tree", "c07_clean_query_tree"],
+     "c07_catalog_tree_link", "c07_catalog_refinement_link", "c07_single_zone_link", "c07_srv_entry_fields", "c07_tree_of_entries_ok", "c07_query_table_tree", "c07_clean_query_tree",
+     "c07_answering_writer_agrees", "c07_clean_query_numbers"],
     srvgen.oracle_c07, gen, nontrivial, srvgen.std_classify,
     ("Coq theorems (no axioms): a request that passes the generic pre-processing is dispatched on its opcode (anything but QUERY: "
      "NOTIMP, whatever the catalog); the QUERY decision table (QTYPE AXFR/IXFR/MAILA/MAILB and QCLASS ANY: NOTIMP regardless of "
